@@ -46,11 +46,40 @@ package verifier
 //@        r.Range.Start == LE64(old(log.Extensions), 8) && r.ExpectedSum == LE64(old(log.Extensions), 16) && r.Range.End == log.Index
 //@        && r.WrittenSum == ite(LE64(old(log.Extensions), 8) == ite(startIdx == 0, log.Index, startIdx), checksum, 0)
 //@   ensures[C16.checkpoint-restarts-sum] err == nil && r != nil ==> newStartIdx == log.Index
+//@   ensures[C18.fresh-report] err == nil && r != nil ==> r.Err == nil
 //@   ensures[C18.foreign-ext-refused] old(len(log.Extensions)) != 0 && (old(len(log.Extensions)) < 24 || LE64(old(log.Extensions), 0) != ExtensionMagicPrefix) ==> err != nil || r == nil
+
+//@ -- every report handed to the background verifier is a fresh one: no error
+//@ -- recorded yet (proved at the send in triggerVerify, assumed of what
+//@ -- runVerifier receives)
+//@ chaninv LogStore.verifyCh msg.Err == nil
+
+//@ -- function-type contract of ReportFn as runVerifier must use it. g_last_end is
+//@ -- the ghost End of the range of the previously delivered report (0 before the
+//@ -- first one). When a report's range does not start where the previous
+//@ -- delivered one ended, checkpoints in between were dropped: the report must
+//@ -- name exactly that gap as its SkippedRange, whatever the outcome of the
+//@ -- reports before it.
+//@ func ReportFn(report)
+//@   requires[C18.skipped-range-names-the-gap] g_last_end > 0 && g_last_end != report.Range.Start ==> report.SkippedRange != nil && report.SkippedRange.Start == g_last_end && report.SkippedRange.End == report.Range.Start
+//@   ghostset g_last_end = report.Range.End
+//@   ghostset g_delivered = g_delivered + 1
+
+//@ -- the background verifier: every received report is verified and delivered
+//@ -- exactly once, in order (loop over the channel; the receive is a havoc
+//@ -- constrained by the channel invariant above)
+//@ func (*LogStore).runVerifier
+//@   props C18
+//@   requires s.s != nil && s.metrics != nil
+//@   ghostinit g_last_end = 0
+//@   assigns *
+//@   loop 1 invariant[C18.skip-mark-is-last-delivered-end] lastCheckPointIdx == g_last_end
+//@   loop 1 invariant s.s != nil && s.metrics != nil && s.reportFn != nil
 
 //@ func (*LogStore).triggerVerify
 //@   props C18
 //@   requires s.metrics != nil
+//@   requires[C18.fresh-report] r.Err == nil
 //@   ensures[C18.never-blocks] !effect("blocking")
 //@   ghostset g_trig = g_trig + 1
 //@   ensures[C18.one-report-or-drop] s.reportFn != nil ==> (traced("select:send:0") && nevent("call:metrics.Collector.IncrementCounter") == 0) || (traced("select:default") && nevent("call:metrics.Collector.IncrementCounter") == 1)
@@ -82,14 +111,16 @@ package verifier
 //@   ensures[C18.no-report-before-store] result != nil ==> !traced("select:send:0") && g_trig == old(g_trig)
 //@   ensures[C18.every-checkpoint-triggered] result == nil && len(logs) >= 1 ==> g_trig == old(g_trig) + len(triggeredReports)
 //@   loop 1 invariant s.checksum == old(s.checksum) && s.sumStartIdx == old(s.sumStartIdx)
+//@   loop 1 invariant forall j int :: 0 <= j && j < len(triggeredReports) ==> triggeredReports[j].Err == nil
 //@   loop 2 invariant g_trig == old(g_trig) + rangeindex + 1 && rangeindex < len(triggeredReports)
+//@   loop 2 invariant forall j int :: 0 <= j && j < len(triggeredReports) ==> triggeredReports[j].Err == nil
 
 //@ func (*LogStore).DeleteRange
 //@   props C16 C18
 //@   requires s.s != nil
 //@   assigns s.checksum, s.sumStartIdx
 //@   ensures[C18.transparent-delete] nevent("call:raft.LogStore.DeleteRange") == 1 && result == g_under_err
-//@   ensures[C16.truncate-resets] result == nil && old(s.sumStartIdx) != 0 && max >= old(s.sumStartIdx) ==> s.sumStartIdx == 0 && s.checksum == 0
+//@   ensures[C16.truncate-resets,C17.inflight-blame-only-if-written] result == nil && old(s.sumStartIdx) != 0 && max >= old(s.sumStartIdx) ==> s.sumStartIdx == 0 && s.checksum == 0
 
 //@ -- D17 (known finding): Data and Extensions are hashed back to back without a
 //@ -- delimiter or length, so the stream of (Data=[x,y], Ext=[z]) and of
